@@ -79,7 +79,7 @@ VARIANTS = [
     V("kv-setter-bypass", ["C03"], K, "        self.internal -= nodes\n        return self\n\n    def span", "        self._KnotVector__internal = tuple(x for x in self.internal if x not in nodes)\n        return self\n\n    def span", "FUNNEL", "KnotVector.remove", "payload rebound without the validating setter"),
     V("shift-commit-early", ["C03", "C18"], K, "        vector = tuple(knoti + value for knoti in self)\n        self.internal = ImmutableKnotVector(vector)\n        return self", "        self.internal = ImmutableKnotVector(tuple(self))\n        vector = tuple(knoti + value for knoti in self)\n        self.internal = ImmutableKnotVector(vector)\n        return self", "COMMIT-LAST", "KnotVector.shift", "computation after a first commit"),
     V("gen-skip-normalize", ["C18"], K, "        knotvector = GeneratorKnotVector.integer(degree, npts, cls)\n        knotvector.normalize()\n        return knotvector", "        knotvector = GeneratorKnotVector.integer(degree, npts, cls)\n        return knotvector", "NORMALIZED", "uniform", "uniform skips normalize"),
-    V("add-ignores-other-kv", ["C08"], C, "            curve = Curve(self.knotvector | other.knotvector)\n            ctrlpoints = np.array(matra) @ self.ctrlpoints\n            ctrlpoints += np.array(matrb) @ other.ctrlpoints", "            curve = Curve(self.knotvector | other.knotvector)\n            ctrlpoints = np.array(matra) @ self.ctrlpoints", "DEP-MAY", "__add__", "sum ignores the second operand's points"),
+    V("add-ignores-other-kv", ["C08"], C, "            curve = Curve(self.knotvector | other.knotvector)\n            ctrlpoints = np.array(matra) @ self.ctrlpoints\n            ctrlpoints = ctrlpoints + np.array(matrb) @ other.ctrlpoints", "            curve = Curve(self.knotvector | other.knotvector)\n            ctrlpoints = np.array(matra) @ self.ctrlpoints", "DEP-MAY", "__add__", "sum ignores the second operand's points"),
     V("curve-shared-kv-shift", ["C15"], C, "        nodes = self.knotvector.knots\n        newnodes = times * nodes\n        newvector = self.knotvector + newnodes", "        nodes = self.knotvector.knots\n        newnodes = times * nodes\n        self.knotvector.insert(newnodes)\n        newvector = self.knotvector", "SHARED-KV", "degree_increase", "in-place insert on the shared KnotVector"),
     V("seed-wrong-weight", ["C10"], H, "        3: (Fraction(1, 6), Fraction(2, 3), Fraction(1, 6)),", "        3: (Fraction(1, 6), Fraction(3, 5), Fraction(1, 6)),", "SEED", "closed_newton", "literal Simpson weights wrong"),
     V("minpoint-left", ["C16"], C, "                        newpoint = newpoint + (line[j] * invweight) * point\n", "                        newpoint = newpoint + point * (line[j] * invweight)\n", "MIN-POINT", "BaseCurve.apply", "point * scalar"),
